@@ -33,7 +33,7 @@ BAD_FORMULAS = [
 ]
 
 
-OWN_DAMAGE = ('cut', 'dangling', 'neg-high', 'neg-low-root')
+OWN_DAMAGE = ('cut', 'dangling', 'neg-high', 'neg-low-root', 'null-child', 'scalar-roots')
 
 
 def _own_damaged_json(bdd, u, how):
@@ -46,6 +46,10 @@ def _own_damaged_json(bdd, u, how):
           not l.startswith('"level_of_var"') and not l.startswith('"roots"')]
     if how == 'cut':
         lines = lines[:max(2, len(lines) - 2)]
+    elif how == 'scalar-roots':
+        # valid JSON, wrong TYPE, noticed only after every node was created
+        lines = [('"roots": 7' + (',' if l.rstrip().endswith(',') else ''))
+                 if l.startswith('"roots"') else l for l in lines]
     elif not ks:
         lines = lines[:-1]
     else:
@@ -55,6 +59,8 @@ def _own_damaged_json(bdd, u, how):
         parts = rest.rstrip().rstrip(',').rstrip(']').split(',')
         if how == 'dangling':
             parts[1] = ' 424242'
+        elif how == 'null-child':
+            parts[2] = ' null'      # valid JSON, wrong type: the loader fails with a TypeError
         elif how == 'neg-high':
             # the high edge complemented: not a valid node of a BDD with complemented else edges
             hv = parts[2].strip()
@@ -236,7 +242,8 @@ def bdd_faults(m, refs, names):
     A(('load dangling', lambda: m.load(files['dangling.p'], levels=False)))
     A(('load interleaved conflict', lambda: m.load(_interleaved_pickle(m), levels=True)))
     for how, flag in (('cut', False), ('dangling', True), ('neg-high', False),
-                      ('neg-high', True), ('neg-low-root', True)):
+                      ('neg-high', True), ('neg-low-root', True), ('null-child', False),
+                      ('null-child', True), ('scalar-roots', True)):
         A(('load own damaged json %s %s' % (how, flag),
            (lambda how, flag: lambda: _load_own(m, u, how, flag))(how, flag)))
     if refs:
